@@ -338,7 +338,20 @@ def d3(cx: Cx, ob: Ob) -> None:
     fn = cx.fn(f"{RECON}.remap_uri_prefixes", ob.id)
     s = cx.summary(fn, ob.id)
     m = ("param", fn.params[1].name)
-    raises = [(t, ctx) for t, ctx in s.raises() if op(t) == "call" and callee_name(t) == "TransitiveError"]
+    te = cx.model.class_by_short("TransitiveError")
+    same = {"TransitiveError"} | ({te.name, *cx.model.__dict__.get("class_aliases", {}).get(te.qualname, ())} if te is not None else set())
+    raises = [(t, ctx) for t, ctx in s.raises() if op(t) == "call" and callee_name(t) in same]
+    others = [(t, ctx) for t, ctx in s.raises() if op(t) == "call" and callee_name(t) not in same and "Transitive" in str(callee_name(t))]
+    if not raises and others:
+        nm = callee_name(others[0][0])
+        ob.violate(
+            fn.qualname,
+            where(fn, others[0][1].path.out[2]),
+            f"remap_uri_prefixes raises `{nm}`, which is not the class published as TransitiveError (nor that class under another name): `except TransitiveError` no longer catches the error the property promises",
+            witness="try: remap_uri_prefixes(c, {'a': 'b', 'b': 'c'}) except TransitiveError: ... is not entered",
+            detail="raise-class",
+        )
+        return
     if not raises:
         ob.violate(fn.qualname, fn.where, "remap_uri_prefixes never raises TransitiveError", detail="no-raise")
         return
@@ -415,6 +428,27 @@ def d4(cx: Cx, ob: Ob) -> None:
             continue
         fn, s, conv, lp = r
         ob.site(f"{fn.where} {fn.qualname}", "frame scan")
+        # the mapping that is looked up is the caller's mapping: every pair of it (a filtered copy takes pairs away
+        # that address a record - 'an unknown CURIE prefix adds nothing' is about prefixes NO record has)
+        mp_ = ("param", fn.params[1].name)
+        flagged_ = False
+        for t_, ev_, _c in s.all_terms():
+            if flagged_:
+                break
+            for c_ in subterms(t_):
+                if op(c_) == "call" and callee_name(c_) in ("_get_curie_preferred_or_synonym", "_get_uri_preferred_or_synonym") and len(c_[2]) >= 2:
+                    a2 = c_[2][1]
+                    for x_ in subterms(a2):
+                        if op(x_) == "comp" and x_[1] == "dict" and len(x_[3]) == 1 and x_[3][0][2] and any(y_ == mp_ for y_ in subterms(x_[3][0][1])):
+                            ob.violate(
+                                fn.qualname,
+                                where(fn, ev_.line),
+                                f"{fname} looks records up in a FILTERED copy of its mapping (`{show(x_)[:60]}`): pairs that the filter drops are not applied although they address a record of the converter (prefixes need not be W3C names, well-formed URLs, ..)",
+                                witness="a record whose prefix the filter rejects (e.g. '3dmet') and a mapping entry for it: the record keeps its old URI prefix",
+                                detail="mapping-filtered",
+                            )
+                            flagged_ = True
+                            break
         for ev, ctx in s.walk():
             if ev.kind == "store" and op(ev.a) == "attr" and ev.a[2] in (CURIE_SIDE | {"pattern"}):
                 ob.violate(fn.qualname, where(fn, ev.line), f"{fname} stores `{show(ev.a)[:50]}`: CURIE prefixes and patterns must stay identical", detail=f"frame:{ev.a[2]}")
@@ -425,11 +459,15 @@ def d4(cx: Cx, ob: Ob) -> None:
                 ob.undecide(f"{fname} does not return a Converter(...)")
                 continue
             recs = ctor[0][2][0] if ctor[0][2] else dict(ctor[0][3]).get("records")
+            # a test in front of the loop (a warning that is or is not issued) gives each of its arms a copy of the
+            # loop: the copy on THIS return's way is the one its list is filled in
+            lp0 = lp
+            lp = next((e_ for e_ in ctx.path.events if e_.kind == "loop" and e_.line == lp0.line and e_.body), lp0)
             if op(recs) == "new":
                 for ev, ectx in s.mutations_of(recs):
                     if ev.kind == "expr" and callee_name(ev.a) == "append":
                         arg = ev.a[2][0]
-                        if not ectx.loops or ectx.loops[0] is not lp:
+                        if not ectx.loops or not (ectx.loops[0].line == lp.line and ectx.loops[0].b == lp.b):
                             if op(arg) == "call" and op(arg[1]) == "cls" and arg[1][1].endswith(".Record"):
                                 ob.violate(fn.qualname, where(fn, ev.line), f"{fname} adds a new Record for prefixes the converter does not know", detail="adds-record")
                             else:
@@ -441,6 +479,7 @@ def d4(cx: Cx, ob: Ob) -> None:
                     n = sum(1 for ev in p.events if ev.kind == "expr" and callee_name(ev.a) == "append" and op(ev.a[1]) == "attr" and ev.a[1][1] == recs)
                     if n != 1 and (p.out is None or p.out[0] == "continue"):
                         ob.violate(fn.qualname, where(fn, lp.line), f"{fname}: a path through the record loop appends the record {n} times: the output has a different number of records", witness=" -> ".join(("" if g.b else "not ") + show(g.a)[:50] for g in p.events if g.kind == "guard"), detail=f"append-count:{n}")
+            lp = lp0
 
 
 @obligation("C12-D5", "_get_curie_preferred_or_synonym / _get_uri_preferred_or_synonym consult the canonical value first, then each synonym, of their own side", floor=2)
